@@ -702,7 +702,23 @@ func (h *c21H) startBackup(op c21Op, sub bool) *c21Backup {
 	if h.appliedAt == nil {
 		h.appliedAt = map[int]uint64{}
 	}
-	h.appliedAt[b.N] = n.Store.DBAppliedIndex()
+	// Ground truth at the quiescent point of invocation: what the node(s) that may
+	// serve this backup have applied. Served locally (Store.Backup, noleader, or
+	// the contacted node is the leader): the contacted node. Possibly forwarded:
+	// the least advanced node that is up. A node that has just become leader need
+	// not have applied every committed entry yet (its commit index only advances
+	// once an entry of its own term is committed), and Store.Backup's leader test
+	// is raft.State() only, so "served by the leader" does not imply "up to date".
+	applied := n.Store.DBAppliedIndex()
+	if op.Via != "store" && !op.NoLeader {
+		for _, x := range h.s.Nodes[1:] {
+			if x.Up && x.Store.DBAppliedIndex() < applied {
+				applied = x.Store.DBAppliedIndex()
+			}
+		}
+	}
+	h.appliedAt[b.N] = applied
+	h.c.Log.Add("%d backup#%d requested: serving node(s) have applied index >= %d", h.s.StepN, b.N, applied)
 	h.cur = b
 	h.c.Probe("backup_started")
 	return b
@@ -974,8 +990,9 @@ func (h *c21H) evalBackup(b *c21Backup) {
 	if nobj == 0 {
 		// the state before the set-up request (schema + preload, one raft entry)
 		// was applied: legitimate only for a node that had not applied it yet
+		// (a follower serving its own copy, or a node elected a moment ago)
 		for _, t := range h.txns {
-			if t.Done && t.Outcome == "ok" && t.Return < b.Invoke && (!b.Op.NoLeader || h.appliedAt[b.N] >= t.Index) {
+			if t.Done && t.Outcome == "ok" && t.Return < b.Invoke && h.appliedAt[b.N] >= t.Index {
 				c.Violate("not-point-in-time", "%s: empty database although transaction %d (raft index %d) had been applied on the serving node before the backup was requested", b.desc(), t.ID, t.Index)
 				return
 			}
